@@ -163,3 +163,53 @@ Proof.
   - change nsPerSecond with 1000000000. change millisecondsPerSecond with 1000.
     field. exact Hb.
 Qed.
+
+(* ---- "resolved once" as a hypothesis on the CALLER alone ----
+   [res_ids ops]: the promise named by every Pass / Fail operation of the history, in order.  If no
+   promise is named twice (what SheddingHandler and the zRPC interceptor guarantee: one deferred
+   resolution per Allow - Props.wrapper_resolves_exactly_once), then whatever the interleaving of
+   the requests' Allow and Pass / Fail operations, flying is the number of promises handed out and
+   not yet resolved, and it is never negative. *)
+Fixpoint res_ids (ops : list op) : list Z :=
+  match ops with
+  | [] => []
+  | OPass id _ :: ops' | OFail id :: ops' => id :: res_ids ops'
+  | _ :: ops' => res_ids ops'
+  end.
+
+Lemma resolved_in_ids : forall ops rs x, In x (resolved ops rs) -> In x (res_ids ops).
+Proof.
+  induction ops as [|o ops IH]; intros rs x H; [destruct rs; contradiction|].
+  destruct rs as [|r rs]; [destruct o; contradiction|].
+  destruct o as [now c1 c2|id now|id]; destruct r; cbn [resolved res_ids] in *;
+    try (apply IH in H; auto; right; exact H);
+    try (destruct H as [H|H]; [left; exact H|right; eapply IH; exact H]);
+    try (right; eapply IH; exact H); try (eapply IH; exact H).
+Qed.
+
+Lemma resolved_nodup : forall ops rs, NoDup (res_ids ops) -> NoDup (resolved ops rs).
+Proof.
+  induction ops as [|o ops IH]; intros rs H; [destruct rs; constructor|].
+  destruct rs as [|r rs]; [destruct o; constructor|].
+  destruct o as [now c1 c2|id now|id]; cbn [res_ids] in H.
+  - destruct r; cbn [resolved]; apply IH; exact H.
+  - inversion H as [|? ? Hn Hd]; subst.
+    destruct r; cbn [resolved]; try (apply IH; exact Hd).
+    constructor; [|apply IH; exact Hd]. intros Hx. apply Hn. eapply resolved_in_ids; exact Hx.
+  - inversion H as [|? ? Hn Hd]; subst.
+    destruct r; cbn [resolved]; try (apply IH; exact Hd).
+    constructor; [|apply IH; exact Hd]. intros Hx. apply Hn. eapply resolved_in_ids; exact Hx.
+Qed.
+
+Lemma open_requests_core : forall c t0 ops,
+  cenabled c = true -> NoDup (res_ids ops) ->
+  let rs := run (init c t0) ops in
+  flying (final (init c t0) ops) =
+    Z.of_nat (length (granted 0 rs)) - Z.of_nat (length (resolved ops rs)) /\
+  incl (resolved ops rs) (granted 0 rs) /\
+  0 <= flying (final (init c t0) ops).
+Proof.
+  intros c t0 ops Hen Hnd rs.
+  destruct (conservation_wf_core c t0 ops Hen (resolved_nodup ops rs Hnd)) as (H1 & H2 & H3).
+  repeat split; assumption.
+Qed.
